@@ -5,7 +5,7 @@
 //! (when `s` does not compile: re-parse to the same `PreModel`).  The Lean oracle classifies any deviation by its
 //! root cause (the (parent operator, child operator, side) triple of the first dropped parenthesis, …).
 use crate::case::Case;
-use crate::props::c09::{GenCfg, gen_exp};
+use crate::props::c09::{BLOCKS, GenCfg, gen_exp};
 use crate::rng::Rng;
 use crate::sx;
 use crate::syntax::{self, T};
@@ -344,7 +344,19 @@ pub fn generate(seed: u64, n: usize, thorough: bool, corpus: Option<&str>) -> Ve
     //     domain bounds; the compiled models of s and format(s) are compared bit for bit
     let lits = ["3.141592653589793", "2.718281828459045", "0.1234567890123456", "0.30000000000000004", "1.0000000000000002",
                 "0.0000000000004", "0.000000000123", "0.00000000000001", "0.000000001", "123456789012.3456", "98765432109876.5",
-                "4503599627370497.5", "0.1", "2.50", "1.0", "100000000000000000000.0", "0.000001", "12.000000000001"];
+                "4503599627370497.5", "0.1", "2.50", "1.0", "100000000000000000000.0", "0.000001", "12.000000000001",
+                // the boundaries of the integer / decimal printing: 2^63 (= i64::MAX as f64) exactly, one ulp below and above,
+                // 2^53 and 2^53 + 1, written as decimals
+                "9223372036854775807.0", "9223372036854775808.0", "9223372036854775809.0", "9223372036854774784.0", "9223372036854777856.0",
+                "9007199254740992.0", "9007199254740993.0", "9007199254740991.0", "18446744073709551616.0", "4611686018427387904.0"];
+    // the same boundaries as INTEGER literals (read through i64) and negated
+    let int_lits = ["9223372036854775807", "9223372036854775806", "9007199254740992", "9007199254740993", "4611686018427387904", "1000000000000000000"];
+    for (i, l) in int_lits.iter().enumerate() {
+        let f = lits[lits.len() - 1 - (i % 10)];
+        push(program(&format!("min {}x - {} * y + -{}", l, f, l), &[format!("{} x + y >= -{}", l, f), format!("x - {} <= y * {}", f, l)], &["x", "y"], "Real"), "number-literals", &mut cases);
+        push(format!("max p * x + a[0] * y + b[1]\ns.t.\n    x + q * y <= a[1]\nwhere\n    let p = {}\n    let q = -{}\n    let a = [{}, {}]\n    let b = [{}, 1]\n    let c = [{}, {}]\ndefine\n    x as Real(-{}, {})\n    y as IntegerRange(-{}, {})\n",
+            l, f, f, "9223372036854775808.0", l, l, f, f, f, l, l), "number-literals", &mut cases);
+    }
     for (i, l) in lits.iter().enumerate() {
         let l2 = lits[(i + 5) % lits.len()];
         push(program(&format!("min {}x + {} * y - y / {}", l, l2, l), &[format!("{}x + y >= {}", l2, l), format!("x - {} <= y * {}", l, l2)], &["x", "y"], "Real"), "number-literals", &mut cases);
@@ -412,6 +424,16 @@ pub fn generate(seed: u64, n: usize, thorough: bool, corpus: Option<&str>) -> Ve
         frame("min x", "x >= 1", "define\n    x as Foo(1, 2)\n"), frame("min x", "x >= 1", "define\n    x as Boolean(0, 1)\n"), frame("min x", "x >= 1", "define\n    x as IntegerRange\n"),
         frame("min x", "x >= 1", "define\n    x as IntegerRange(1)\n"), frame("min x", "x >= 1", "define\n    x as IntegerRange(1, 2, 3)\n"), frame("min x", "x >= 1", "define\n    x as Real(1)\n"),
         frame("min x", "x >= 1", "define\n    x as NonNegativeReal(1, 2, 3)\n"),
+        frame("min x", "x >= 1", "define\n    x as boolean\n"), frame("min x", "x >= 1", "define\n    x as Int\n"), frame("min x", "x >= 1", "define\n    x, y as Binary\n"),
+        frame("min x", "x >= 1", "define\n    x as PositiveReal\n"), frame("min x", "x >= 1", "define\n    x as Real\n    y as integerrange(0, 1)\n"),
+        frame("min x", "x >= 1", "define\n    x as IntegerRange(1) for i in 0..2\n"), frame("min x", "x >= 1", "define\n    x_i as IntegerRange for i in 0..2\n"),
+        frame("min x", "x >= 1", "define\n    x as IntegerRange(0 + 1)\n"), frame("min x", "x >= 1", "define\n    y as Real\n    x as IntegerRange(2)\n"),
+        frame("min x", "x >= 1", "define\n    x as IntegerRange(len(v))\n"), frame("min x", "x >= 1", "define\n    x, y, z as IntegerRange\n"), frame("min x", "x >= 1", "define\n    x as IntegerRange\n    y as Real\n"),
+        frame("min bar { x } + 1", "x >= 1", ""), frame("min x", "sum { x, y } >= 1", ""), frame("min x", "x >= 1 for i in 0..prod { 1 }", ""), frame("min x", "x >= len { v }", ""),
+        frame("min x", "x_{foo { 1 }} >= 1", ""), frame("min x", "x >= 1", "where\n    let k = foo { 1, 2 }\n"), frame("min x", "x >= 1", "define\n    x as Real(foo { 1 }, 2)\n"),
+        frame("min len(i in v) { i }", "x >= 1", ""), frame("min x", "x >= range(i in 0..2) { i }", ""), frame("min x", "x >= 1 for i in 0..summ(j in v) { j }", ""),
+        frame("min x", "total(i in S) { x_i } <= 3", ""), frame("min x", "x >= 1", "where\n    let k = bar(i in 0..2) { i }\n"), frame("min x", "x >= 1", "define\n    x as Real(0, product(i in v) { i })\n"),
+        frame("min x", "c_{f(i in v) { i }}: x >= 1", ""), frame("min x", "x >= 1", "define\n    x_{g(i in v) { i }} as Real\n"), frame("min SUM(i in v) { i }", "x >= 1", ""),
         // unknown / wrong-arity blocks inside a program
         frame("min foo { x }", "x >= 1", ""), frame("min x", "foo(i in 0..2) { x } >= 1", ""), frame("min x", "x >= abs { 1, 2 }", ""),
         frame("min x", "x >= 1 for i in foo { 1 }..2", ""), frame("min x", "x >= 1", "define\n    x as Real(abs { 1, 2 }, 3)\n"),
@@ -457,6 +479,53 @@ pub fn generate(seed: u64, n: usize, thorough: bool, corpus: Option<&str>) -> Ve
         }
         let full = with_declarations(&body, &mut r);
         push(full, "random-core", &mut cases);
+    }
+
+    // --- random programs over the WHOLE expression language (compound variables, accesses, block functions, scoped blocks
+    //     over ranges / sets / tuples, arrays, strings) with random `for` iterations behind constraints and declarations,
+    //     compound constraint / domain names and every variable type
+    let iter_clause = |r: &mut Rng| -> String {
+        let mut parts: Vec<String> = vec![];
+        for k in 0..(1 + r.below(2)) {
+            let v = ["i", "j", "k"][k % 3];
+            parts.push(match r.below(5) {
+                0 => format!("{} in S", v),
+                1 => format!("(u{}, v{}) in edges(G)", k, k),
+                2 => format!("{} in 0..=len(v)", v),
+                3 => format!("{} in (n - 1)..n * 2", v),
+                _ => format!("{} in 0..{}", v, r.pick(&["3", "n", "len(S)"])),
+            });
+        }
+        format!(" for {}", parts.join(", "))
+    };
+    let nb = if thorough { n } else { n / 3 };
+    for _ in 0..nb {
+        let depth = 1 + r.below(3) as u32;
+        let kind = *r.pick(&["min", "max", "min", "max", "solve"]);
+        let mut gen_text = |r: &mut Rng, d: u32| -> String { loop { let mut t: Vec<T> = vec![]; gen_exp(r, &BLOCKS, d, &mut t); if t.len() <= 30 { return syntax::render(&t, 0, r); } } };
+        let obj = if kind == "solve" { "solve".to_string() } else { format!("{} {}", kind, gen_text(&mut r, depth)) };
+        let mut body = format!("{}\ns.t.\n", obj);
+        for i in 0..(1 + r.below(3)) {
+            let name = match r.below(5) { 0 => format!("c{}: ", i), 1 => format!("c_i_{}: ", i), 2 => "cap_{i + 1}: ".to_string(), _ => String::new() };
+            let lhs = gen_text(&mut r, depth);
+            let it = if r.chance(1, 2) { iter_clause(&mut r) } else { String::new() };
+            if r.chance(1, 5) { body.push_str(&format!("    {}{}{}\n", name, lhs, it)); }
+            else { body.push_str(&format!("    {}{} {} {}{}\n", name, lhs, r.pick(&["<=", ">=", "=", "<", ">"]), gen_text(&mut r, depth.saturating_sub(1)), it)); }
+        }
+        if r.chance(2, 3) {
+            body.push_str("where\n");
+            for (k, v) in [("n", "3"), ("S", "[1, 2, 3]"), ("s", "\"a b\""), ("_", "n + 1"), ("q", "len(S) * 2")] { if r.chance(1, 2) { body.push_str(&format!("    let {} = {}\n", k, v)); } }
+            if body.ends_with("where\n") { body.push_str("    let n = 3\n"); }
+        }
+        if r.chance(2, 3) {
+            body.push_str("define\n");
+            for d in ["x, y as Real", "z_i as Boolean for i in 0..3", "w_i_j, a as IntegerRange(0, n) for i in S, (j, k) in edges(G)", "b as NonNegativeReal(0, 10)",
+                      "c_{i + 1} as Real(0 - n, n) for i in 0..=n", "d, e, f as NonNegativeReal", "g_1 as IntegerRange(1, 2 * (n + 1))"] {
+                if r.chance(1, 3) { body.push_str(&format!("    {}\n", d)); }
+            }
+            if body.ends_with("define\n") { body.push_str("    x as Real\n"); }
+        }
+        push(body, "random-blocks", &mut cases);
     }
 
     // --- declarations, blocks, iterations: templates with random expressions in their slots
